@@ -859,6 +859,13 @@ class Engine:
         if recv.ty == STR and len(n.args) == 1:
             x = ev.ev(n.args[0], ctx)
             if isinstance(x.ty, TList) and x.ty.elem == STR:
+                jf = getattr(self, 'join_fold', None)
+                if jf and z3.is_string_value(z3.simplify(recv.t)) and z3.simplify(recv.t).as_string() == '':
+                    # ''.join(list): the module's concatenation fold over the list (JOIN_FOLD names the spec function, defined by its
+                    # 0 / step equations in the module's AXIOMS)
+                    argtys, rty = self.funcs[jf]
+                    fj = z3.Function('spec_' + jf, x.ty.sort(), z3.IntSort(), z3.StringSort())
+                    return V(STR, fj(x.t, list_len(x)))
                 f_ = z3.Function('str_join', z3.StringSort(), x.ty.sort(), z3.StringSort())
                 self.libs_used.add('LC-JOIN: sep.join(list of str) is an uninterpreted function of (sep, list value)')
                 return V(STR, f_(recv.t, x.t))
